@@ -45,7 +45,8 @@ func (w *W) sendReady(o *Object) *Term {
 	if o.kind != "chan" {
 		panic("cannot encode: send on " + o.kind + " channel")
 	}
-	return Or(w.chClosed(o), Ult(w.chLen(o), BV(64, uint64(o.cap))))
+	capv := w.getCell(o, "capv", BV(64, uint64(o.cap))).(*Term)
+	return Or(w.chClosed(o), Ult(w.chLen(o), capv))
 }
 
 // chanCells: the cells a channel operation touches, for the conflict analysis of pass 1
